@@ -606,7 +606,10 @@ def fam_joint(case):
             if not bad:
                 _rate_value(jrp, "JointRecurrencePlot", JR, lc, acc)
             acc.see(_rqa(jrp, "JointRecurrencePlot", lc, acc, bad))
-            # -- the network
+            # -- the network (every parameter set for the default metrics,
+            #    the first and fourth of each variant for the others)
+            if mp != J_METRICS[0] and not acc.budget(("jrn", mp, variant)):
+                continue
             acc.evals += 1
             try:
                 net = JointRecurrenceNetwork(ax, ay, metric=mp, lag=lag,
@@ -835,8 +838,9 @@ def _cross_cases(thorough):
     # embedding (the same for both series)
     for emb in EMBS[1:]:
         need = (emb[0] - 1) * emb[1] + 1
-        for x in _seqs(ALPHA3, need, 4):
-            for y in _seqs(ALPHA3, need, 4):
+        alpha = ALPHA3 if thorough else [0.0, 0.5]
+        for x in _seqs(alpha, need, 4):
+            for y in _seqs(alpha, need, 4):
                 out.append({"x": x, "y": y, "emb": emb})
     # two-dimensional
     for lx in range(1, 3):
